@@ -262,7 +262,9 @@ def diff_cases(clsname, ctx):
                             except AttributeError:
                                 got = None
                             if got == "DATA":
-                                res["violations"].append(_v(clsname, "get:protected:%s@d%d" % (key, depth), "protected-shadowed",
+                                real = key in vars(ti) or key in class_attrs
+                                res["violations"].append(_v(clsname, ("get:protected:%s@d%d" % (key, depth)) if real else
+                                                            ("get:protected-nonattr@d%d" % depth), "protected-shadowed",
                                                             "obj.%s returns the data item after obj[%r] = 'DATA'" % (key, key)))
                         else:
                             ti[key] = "DATA"
